@@ -237,6 +237,40 @@ static int do_enqafter(int A, int R, int kind) {
     return 0;
 }
 
+// execwait P K R W: threads that sleep in task_arena::execute because every slot of arena(K, R) is taken are woken when a slot is released, also when no worker can serve
+// their delegated functor: max_allowed_parallelism = P (P = 1: no workers at all; P = 2: the one worker is parked in a long task of another arena).
+// K threads occupy the arena (sit inside execute), W more call execute and go to sleep; the occupants leave one by one: every waiter's functor must have run within
+// 4 s of the moment enough slots were free.   output: STUCK n
+static int do_execwait(int P, int K, int R, int W) {
+    Watchdog wd(120.0); Out o; wd.arm(&o);
+    tbb::global_control gc(tbb::global_control::max_allowed_parallelism, P);
+    long stuck = 0;
+    for (int round = 0; round < 3; ++round) {
+        std::atomic<int> park{1}, parked{0};
+        tbb::task_arena other(2, 1); std::thread parker;
+        if (P > 1) {   // occupy the only worker: it runs a long task enqueued into another arena
+            other.enqueue([&] { parked = 1; while (park.load()) std::this_thread::yield(); });
+            for (int k = 0; k < 40000 && !parked.load(); ++k) std::this_thread::sleep_for(std::chrono::microseconds(100));
+        }
+        tbb::task_arena A(K, R);
+        std::atomic<int> inside{0}, leave{0}, ran{0};
+        std::vector<std::thread> occ, wait;
+        for (int i = 0; i < K; ++i) occ.emplace_back([&, i] { A.execute([&] { inside++; while (leave.load() <= i) std::this_thread::yield(); }); });
+        for (int k = 0; k < 40000 && inside.load() < K; ++k) std::this_thread::sleep_for(std::chrono::microseconds(100));
+        for (int w = 0; w < W; ++w) wait.emplace_back([&] { A.execute([&] { ran++; }); });
+        std::this_thread::sleep_for(std::chrono::milliseconds(150));                 // the waiters have found the arena full and gone to sleep
+        for (int i = 0; i < K; ++i) { leave = i + 1; std::this_thread::sleep_for(std::chrono::milliseconds(30)); }
+        for (int k = 0; k < 40000 && ran.load() < W; ++k) std::this_thread::sleep_for(std::chrono::microseconds(100));
+        if (ran.load() < W) { stuck += W - ran.load(); std::printf("STUCK %ld\n", stuck); std::fflush(stdout); std::_Exit(0); }
+        for (auto& x : occ) x.join(); for (auto& x : wait) x.join();
+        park = 0;
+        if (P > 1) other.execute([] {});
+    }
+    wd.disarm();
+    std::printf("STUCK %ld\n", stuck);
+    return 0;
+}
+
 // blocked producers of a full concurrent_bounded_queue, some of them aborted (their tickets become holes), later producers waiting
 // behind the holes: every pop that frees a slot must wake the producer waiting for it
 static int do_bq(int cap, int nA, int nB, unsigned seed) {
@@ -266,6 +300,7 @@ int main(int argc, char** argv) {
     if (mode == "seq1") return do_seq1();
     if (mode == "mt") return do_mt(atoi(argv[2]), (unsigned)atoi(argv[3]), atoi(argv[4]));
     if (mode == "enq") return do_enq(atoi(argv[2]), atoi(argv[3]));
+    if (mode == "execwait") return do_execwait(atoi(argv[2]), atoi(argv[3]), atoi(argv[4]), atoi(argv[5]));
     if (mode == "enqafter") return do_enqafter(atoi(argv[2]), atoi(argv[3]), atoi(argv[4]));
     if (mode == "enqprio") return do_enqprio(atoi(argv[2]), atoi(argv[3]), atoi(argv[4]));
     if (mode == "bq") return do_bq(atoi(argv[2]), atoi(argv[3]), atoi(argv[4]), (unsigned)atoi(argv[5]));
